@@ -160,6 +160,19 @@ CLAIMED = {
         "note": TRUSTED,
         "technique": "static analysis: who-may-call enumeration with positive control, dominance by guard edges, operand provenance, constant comparison over MIR",
     },
+    "C19": {
+        "text": "Narrow static claim (two clauses of the statement).  Display width: the `left` operand of both get_column calls of the "
+                "posting printer is a pure sum of a unicode-width measurement (wide = 2 columns) of the posting's account, the width of "
+                "the clear mark and - with an amount - the alignment of the amount just rendered; the balance-only column is a constant "
+                "plus (unicode width of the rendered assertion - its alignment) taken from one rendering; byte / char counts are "
+                "violations.  Minimum separation: every formatter width of the posting printer comes from get_column (or is 0 after an "
+                "amount), get_column returns padding, or colsize-left only under left+padding <(=) colsize (or the equivalent max form), "
+                "and each call's constant padding leaves two spaces given the right-aligned literal it pads.  That the number ends at "
+                "column 52, the indent literals and entry separation are not decided (DESIGN.md section 6.4).",
+        "design_ref": "DESIGN.md §4 C19, §6.4",
+        "note": TRUSTED,
+        "technique": "static analysis: arithmetic expression trees over MIR (operand provenance through +/-), guard-in-force check of the column helper, constant comparison",
+    },
 }
 
 _WIP = "check not built yet in this session (design: DESIGN.md §4); not claimed until it is"
